@@ -117,6 +117,19 @@ func feed(ids ...string) chan gdbi.ElementLookup {
 	return ch
 }
 
+// feedMany: n ids prefix+"k<i>" with prefix+s in the middle.
+func feedMany(prefix string, n int, s string) chan gdbi.ElementLookup {
+	ids := make([]string, 0, n)
+	for i := 0; i < n; i++ {
+		if i == n/2 {
+			ids = append(ids, prefix+s)
+			continue
+		}
+		ids = append(ids, fmt.Sprintf("%sk%d", prefix, i))
+	}
+	return feed(ids...)
+}
+
 func drain(ch chan gdbi.ElementLookup) error {
 	for range ch {
 	}
@@ -188,6 +201,7 @@ func buildEntries() []*entry {
 		add("psql", "GetVertexChannel", v, "id", nil, func(e *env, s string) error {
 			return drain(e.pg().GetVertexChannel(ctx, feed(s), load))
 		})
+
 		for _, tr := range travs {
 			tr := tr
 			add("psql", tr.name, v, "id", nil, func(e *env, s string) error {
@@ -277,8 +291,19 @@ func buildEntries() []*entry {
 	add("esql", "GetVertexChannel", "", "table", nil, func(e *env, s string) error {
 		return drain(e.es().GetVertexChannel(ctx, feed(s+":1"), false))
 	}).PanicSig = "panic-unknown-table"
+	// one id among very many of one table: batches beyond the placeholder limits of the
+	// usual databases (sqlite 999, SQL Server 2100)
+	add("esql", "GetVertexChannel", "", "id-of-1200", nil, func(e *env, s string) error {
+		return drain(e.es().GetVertexChannel(ctx, feedMany("users:", 1200, s), false))
+	})
+	add("esql", "GetVertexChannel", "", "id-of-2500", nil, func(e *env, s string) error {
+		return drain(e.es().GetVertexChannel(ctx, feedMany("users:", 2500, s), false))
+	})
 	for _, tr := range travs {
 		tr := tr
+		add("esql", tr.name, "", "id-of-1200", nil, func(e *env, s string) error {
+			return drain(tr.f(e.es(), ctx, feedMany(tr.esTable+":", 1200, s), false, false, nil))
+		})
 		add("esql", tr.name, "", "id", nil, func(e *env, s string) error {
 			return drain(tr.f(e.es(), ctx, feed(tr.esTable+":"+s), false, false, nil))
 		})
